@@ -65,9 +65,9 @@ Proof.
     + inversion Hab; subst; [apply sub_skip|apply sub_take]; auto.
 Qed.
 
-Lemma root_genes_nodup t fo r : wfb t fo = true -> In r (fo_roots fo) -> NoDup (genes_of r).
+Lemma root_genes_nodup t fo r : wfbc t fo = true -> In r (fo_roots fo) -> NoDup (genes_of r).
 Proof.
-  intros Hwf Hr. unfold wfb in Hwf. rewrite !andb_true_iff in Hwf. destruct Hwf as (((((_ & _) & _) & _) & Hg) & _).
+  intros Hwf Hr. unfold wfbc in Hwf. rewrite !andb_true_iff in Hwf. destruct Hwf as ((((_ & _) & _) & _) & Hg).
   apply nodupb_NoDup' in Hg. rewrite gene_ids_roots in Hg.
   clear - Hg Hr. induction (fo_roots fo) as [|h l IH]; [contradiction|]. simpl in Hg.
   destruct Hr as [->|Hr].
@@ -78,7 +78,7 @@ Qed.
 
 (* (a) every descendant gene once *)
 Theorem desc_genes_nodup t fo r h :
-  wfb t fo = true -> In r (fo_roots fo) -> In h (all_of r) -> NoDup (desc_genes h).
+  wfbc t fo = true -> In r (fo_roots fo) -> In h (all_of r) -> NoDup (desc_genes h).
 Proof.
   intros Hwf Hr Hh. unfold desc_genes. apply FinFun.Injective_map_NoDup; [intros a b E; now inversion E|].
   eapply subseq_nodup; [apply genes_sub_desc; exact Hh|]. eapply root_genes_nodup; eauto.
@@ -147,7 +147,7 @@ Qed.
 
 (* (d) every member of a family reports the family's root *)
 Theorem top_level_unique t fo r x :
-  wfb t fo = true -> In r (fo_roots fo) -> In x (all_of r) -> top_level_of fo (href x) = Some r.
+  wfbc t fo = true -> In r (fo_roots fo) -> In x (all_of r) -> top_level_of fo (href x) = Some r.
 Proof.
   intros Hwf Hr Hx. unfold top_level_of.
   pose proof (wfb_refs t fo Hwf) as Hn. unfold all_nodes_of in Hn. rewrite map_flat_map' in Hn.
@@ -163,7 +163,7 @@ Qed.
 Definition family_at (tl : hog) (g : taxon) : list ref := map href (filter (fun x => taxon_eqb (htax x) g) (all_of tl)).
 
 Theorem get_at_level_spec t fo r x g :
-  wfb t fo = true -> In r (fo_roots fo) -> In x (all_of r) -> is_gene r = false ->
+  wfbc t fo = true -> In r (fo_roots fo) -> In x (all_of r) -> is_gene r = false ->
   get_at_level fo (href x) g =
     if match family_at r g with [] => true | _ => false end then Err KeyError
     else if mem_ref (href x) (family_at r g) then Err KeyError
@@ -176,7 +176,7 @@ Qed.
 
 (* the answer would be the member itself exactly when the member lives in the queried genome *)
 Theorem self_in_family_at t fo r x g :
-  wfb t fo = true -> In r (fo_roots fo) -> In x (all_of r) ->
+  wfbc t fo = true -> In r (fo_roots fo) -> In x (all_of r) ->
   (In (href x) (family_at r g) <-> htax x = g).
 Proof.
   intros Hwf Hr Hx. unfold family_at. rewrite in_map_iff. split.
@@ -198,15 +198,15 @@ Proof.
 Qed.
 
 Theorem clustering_disjoint t fo A :
-  wfb t fo = true -> NoDup (flat_map genes_of (ANs A fo)).
+  wfbc t fo = true -> NoDup (flat_map genes_of (ANs A fo)).
 Proof.
-  intros Hwf. pose proof Hwf as Hwf'. unfold wfb in Hwf. rewrite !andb_true_iff in Hwf. destruct Hwf as (((((_ & _) & _) & _) & Hg) & _).
+  intros Hwf. pose proof Hwf as Hwf'. unfold wfbc in Hwf. rewrite !andb_true_iff in Hwf. destruct Hwf as ((((_ & _) & _) & _) & Hg).
   apply nodupb_NoDup' in Hg. rewrite gene_ids_roots in Hg.
   eapply subseq_nodup; [|exact Hg]. unfold ANs. rewrite flat_map_flat_map'.
   apply subseq_flat_map. apply Forall_forall. intros h _. apply anodes_genes_sub.
 Qed.
 
-Theorem clustering_spec t fo A : wfb t fo = true ->
+Theorem clustering_spec t fo A : wfbc t fo = true ->
   ancestral_clustering fo A = map (fun ho => (href ho, genes_of ho)) (ANs A fo).
 Proof.
   intros Hwf. unfold ancestral_clustering, genome_nodes. rewrite (ANs_filter t); auto.
